@@ -248,6 +248,10 @@ def run_case(case: dict) -> CaseResult:
         for si, sess in enumerate(case["sessions"]):
             api = tuple(sess["api"])
             env.dev.api_version = api
+            # the name a device announces in its hello is independent of the version it negotiates (it may announce none)
+            env.dev.name = sess.get("dname", "dev")
+            if sess.get("dname") is not None:
+                classes.add("hello_name_varied")
             await cli.connect(login=True)
             if api in ((1, 0), (1, 1), (1, 2), (1, 3), (1, 4), (1, 5)):
                 classes.add("threshold_version")
@@ -426,6 +430,8 @@ def _case(draw, tier):
         api = draw(st.sampled_from(VERSIONS + [[1, 10], [1, 10]]))
         cmds = draw(st.lists(_command(tier), min_size=1, max_size=12))
         sessions.append({"api": api, "cmds": cmds})
+        if draw(st.integers(0, 3)) == 1:
+            sessions[-1]["dname"] = draw(st.sampled_from(["", "", "kitchen", "ü"]))
     return {"noise": draw(st.integers(0, 4)) == 0, "sessions": sessions}
 
 
@@ -480,6 +486,7 @@ def enumerated(tier):
         s1 = [mk([["level", 1]], {"level": 5}), {"m": "cover_command", "key": 1, "args": {"stop": True}}, {"m": "climate_command", "key": 1, "args": {"preset": 2}}]
         s2 = [mk([["level", 1], ["label", 3]], {"level": 6, "label": "x"}), mk([["level", 2]], {"level": 0.5}), {"m": "cover_command", "key": 1, "args": {"position": 1.0}}, {"m": "climate_command", "key": 1, "args": {"preset": 2}}]
         yield {"noise": False, "sessions": [{"api": a, "cmds": s1}, {"api": b, "cmds": s2}, {"api": a, "cmds": s1 + s2}]}
+        yield {"noise": False, "sessions": [{"api": a, "cmds": s1, "dname": ""}, {"api": b, "cmds": s2, "dname": ""}, {"api": a, "cmds": s1 + s2, "dname": "kitchen"}]}
 
 
 def post_run(total, tier):
